@@ -22,6 +22,7 @@ violation leaves an association that reports itself connected but can never make
             timer assert or by a negative receive window reaching an unsigned pack
   C02-SERIAL  serial-number discipline (C17 rule set) in rtcsctptransport.py: TSNs and stream sequence numbers only through
             wrap-safe helpers (a counter that does not wrap leaves messages queued forever)
+  C02-DELIVER (rule C01-REASM) for every arrival order of interleaved messages on two streams nothing complete stays queued
 Does not decide: delivery within bounded time, absence of stalls (abandoned fragments of partially reliable messages are
 outside these rules, see C06).
 """
@@ -473,3 +474,6 @@ def run(rep: Report, prog: Program, tier: str) -> None:
     reach = CallGraph(prog).reachable([meth("_handle_data")])
     sign_rule(rep, prog, PROP, "C02-RX-SIGN", sorted(q for q in reach if q.startswith("rtcsctptransport.")))
     serial_subrule(rep, prog, tier, PROP, "C02-SERIAL", ["rtcsctptransport"], 30, "serial-number discipline (C17 rule set) in rtcsctptransport.py")
+    from .common import import_rules
+    import_rules(rep, prog, tier, PROP, "C02-DELIVER", "C01", ["C01-REASM"],
+                 "once every chunk has arrived, every complete message has been delivered and the reassembly queues are empty (rule C01-REASM)", 100)
